@@ -61,6 +61,9 @@ def pipeTrace (cfg : PipelineTrace.Cfg) (evs : List TraceOrder.Ev) : PipeOutcome
     let wg := PipelineTrace.workerGs evs
     if wg.length ≠ cfg.W then { answer := s!"rejected workers: {wg.length} worker goroutines logged, {cfg.W} configured" } else
     let tr := evs.toArray
+    match PipelineTrace.counterViolation cfg.W tr with
+    | some p => { answer := s!"rejected counters: {p}:{showEv (TraceOrder.evAt tr p)} is outside the bounds implied by the logged line events" }
+    | none =>
     match TraceOrder.verdict (PipelineTrace.machine cfg wg) (PipelineTrace.lin wg evs) (PipelineTrace.initSt cfg batches) tr with
     | .accepted ps _ =>
       let s := ps.lts
